@@ -5,6 +5,7 @@ STICKY, DONE-EVID, LIVE(b,c), UNW.
 from env import Ob, ordering_name
 from guards import block_facts, unref
 from terms import fmt, subterms, PURE, callee_model_key
+from facts import norm_std
 from roles import place_path
 
 ACQ = ("Acquire", "AcqRel", "SeqCst")
@@ -253,7 +254,11 @@ class Ticket:
         elif rt.startswith("std::option::Option<"):
             classes = ("Some", "None")
         else:
-            return {}
+            # a field-less enum of the crate (`enum Turn { Mine, NotYet, Over }`): one class per variant
+            a = self.env.F.adts.get(norm_std(rt.split("<")[0]))
+            if not a or a.get("kind") != "Enum" or any(v["fields"] for v in a["variants"]):
+                return {}
+            classes = tuple(v["name"] for v in a["variants"])
         sites = {bb: [c for c in cs if c[0] in classes and type(c[0]) is type(classes[0])]
                  for bb, cs in self.ret_sites(b, sa).items()}
         allc = [c for bb in sorted(sites) for c in sites[bb]]
